@@ -114,7 +114,7 @@ func childC05(args []string) {
 			l     common.RemoteUserLogin
 			stamp int64
 		}
-		gotc := make(chan got, 4)
+		gotc := make(chan got, 1<<16) // never the bottleneck: a processor that forwards too much must not wedge the harness
 		go func() {
 			for l := range logins {
 				gotc <- got{l, vlib.Tick()}
@@ -122,6 +122,10 @@ func childC05(args []string) {
 		}()
 		proc := sshd.NewSshdProcessor(ctx, logins, vNode, vMID, rec.Writer(), newMetrics())
 		for i := from; i < to; i++ {
+			if c05Waits >= 3 {
+				out.add("cases_skipped_after_three_watchdog_expiries", 1)
+				continue
+			}
 			c := c05Accepted(seed, i)
 			pid := c05PIDs[(i/4)%len(c05PIDs)]
 			out.begin(i, c.Msg)
@@ -133,6 +137,9 @@ func childC05(args []string) {
 			calls := rec.Since(n0)
 			if err != nil || len(calls) != 1 {
 				out.violation("C05:rendezvous:event", fmt.Sprintf("err=%v events=%d", err, len(calls)), wit)
+				for len(gotc) > 0 {
+					<-gotc
+				}
 				continue
 			}
 			select {
@@ -145,6 +152,7 @@ func childC05(args []string) {
 				}
 				_ = retStamp
 			case <-time.After(20 * time.Second):
+				c05Waits++
 				out.violation("C05:rendezvous:no-login", "no login received 20 s after the call returned", wit)
 			}
 			select {
@@ -223,6 +231,10 @@ func childC05(args []string) {
 		slowHandoff(ctx, out, "C05", seed, from, to, dwell, func(i int) bool { return i%2 == 1 })
 	case "cancel": // cancellation while the hand-off is blocked on an unready correlator
 		for i := from; i < to; i++ {
+			if c05Waits >= 3 {
+				out.add("cases_skipped_after_three_watchdog_expiries", 1)
+				continue
+			}
 			c := c05Accepted(seed, i)
 			pre := (i/4)%2 == 0 // cancel before the call / while blocked
 			out.begin(i, c.Msg)
@@ -252,6 +264,7 @@ func childC05(args []string) {
 					cancel()
 					continue
 				case <-time.After(30 * time.Second):
+					c05Waits++
 					out.inconclusive("C05 cancel: event write not reached within 30 s")
 					cancel()
 					continue
@@ -278,12 +291,13 @@ func childC05(args []string) {
 				if err != nil && strings.Contains(err.Error(), "failed to write event") {
 					out.violation(sig+":write-error-reported-without-write-failure", fmt.Sprintf("returned %v after cancellation", err), wit)
 				}
-			case <-time.After(30 * time.Second):
+			case <-time.After(12 * time.Second):
+				c05Waits++
 				stuck, why := classifyStacks(vlib.AllStacks(), "sshd.process")
 				if stuck {
-					out.violation(sig+":stuck-after-cancel", "worker still parked after cancel: "+why, wit)
+					out.violation(sig+":stuck-after-cancel", "worker still parked 12 s after cancel: "+why, wit)
 				} else {
-					out.inconclusive("C05 cancel: no return within 30 s but worker not parked: " + why)
+					out.inconclusive("C05 cancel: no return within 12 s but worker not parked: " + why)
 				}
 				continue
 			}
@@ -306,12 +320,16 @@ func checkC05(r *vlib.Run) int {
 	nFault := r.Pick(400, 4000)
 	nCancel := r.Pick(160, 2000)
 	stats := map[string]int{}
+	phaseWall := map[string]int{}
+	defer func() { fmt.Println("  C05 phase wall-clock seconds:", phaseWall) }()
 	dist := vlib.NewDistinct()
 	for _, ph := range []struct {
 		name string
 		n    int
 	}{{"accepted", nAcc}, {"rendezvous", nRdv}, {"never", nNever}, {"fault", nFault}, {"cancel", nCancel}, {"slow", 64}} {
+		t0 := time.Now()
 		res := runChildren(r, "mon-race", "c05", ph.n, (ph.n+31)/32, 10*time.Minute, ph.name)
+		phaseWall[ph.name] = int(time.Since(t0).Seconds())
 		for k, v := range res.stats {
 			stats[k] += v
 		}
@@ -350,6 +368,11 @@ func checkC05(r *vlib.Run) int {
 // slowHandoff runs accepted-login lines against a correlator that becomes
 // ready only after a dwell. Half of the lines go through the syslog
 // ingester's callback, which is how the daemon hands lines to the processor.
+// c05Waits counts cases of this child process that ran into a watchdog; after
+// three the rest of the phase is skipped - each costs the whole watchdog and
+// the verdicts so far already decide the run.
+var c05Waits int
+
 func slowHandoff(ctx context.Context, out *childOut, prefix string, seed int64, from, to int, dwell time.Duration, framed func(int) bool) {
 	type slowCase struct {
 		c      vlib.SshCase
@@ -381,6 +404,15 @@ func slowHandoff(ctx context.Context, out *childOut, prefix string, seed int64, 
 		}
 	}
 	time.Sleep(dwell) // workload, not verdict: nobody is ready to receive for this long
+	// The cases run side by side, so each stage has one watchdog for the whole
+	// batch, not one per case: first every pending hand-off is received, then
+	// every call must have returned.
+	type pend struct {
+		sc  *slowCase
+		wit map[string]any
+	}
+	var delivered []pend
+	deadline := time.Now().Add(30 * time.Second)
 	for _, sc := range cases {
 		out.add("slow_correlator_cases", 1)
 		out.class("slow|" + sc.via + "|" + sc.c.Form)
@@ -398,17 +430,20 @@ func slowHandoff(ctx context.Context, out *childOut, prefix string, seed int64, 
 			if len(calls) != 1 || !sameEvent(l.Source, calls[0]) || l.PID != 4242 {
 				out.violation(prefix+":slow:wrong-login:"+sc.via+":"+sc.c.Form, fmt.Sprintf("login pid=%d events=%d", l.PID, len(calls)), wit)
 			}
-		case <-time.After(30 * time.Second):
+			delivered = append(delivered, pend{sc, wit})
+		case <-time.After(time.Until(deadline)):
 			out.violation(prefix+":slow:no-login-offered:"+sc.via+":"+sc.c.Form, "the blocked hand-off did not deliver when the correlator became ready", wit)
-			continue
 		}
+	}
+	deadline = time.Now().Add(30 * time.Second)
+	for _, p := range delivered {
 		select {
-		case err := <-sc.done:
+		case err := <-p.sc.done:
 			if err != nil {
-				out.violation(prefix+":slow:error-after-delivery:"+sc.via+":"+sc.c.Form, err.Error(), wit)
+				out.violation(prefix+":slow:error-after-delivery:"+p.sc.via+":"+p.sc.c.Form, err.Error(), p.wit)
 			}
-		case <-time.After(30 * time.Second):
-			out.violation(prefix+":slow:no-return-after-delivery:"+sc.via+":"+sc.c.Form, "call did not return after the login was received", wit)
+		case <-time.After(time.Until(deadline)):
+			out.violation(prefix+":slow:no-return-after-delivery:"+p.sc.via+":"+p.sc.c.Form, "call did not return after the login was received", p.wit)
 		}
 	}
 }
